@@ -162,8 +162,22 @@ func runC13(c *Ctx) {
 	}
 	c.slot(has("EQ("+desc(sys)+"#err,nil)"), 1, "gate/syspath-error", "SysPath err == nil", site, "")
 	c.slot(has("EQ(call:os.Lstat("+pathD+")#err,nil)"), 1, "gate/lstat", "os.Lstat(store path) err == nil (Lstat: a symlinked store directory is seen as a symlink)", site, "the store directory is not examined with Lstat")
-	c.slot(has("T(call:(io/fs.FileMode).IsDir(call:invoke:os.FileInfo.Mode(call:os.Lstat("), 1, "gate/is-directory", "the store path is a directory", site, "")
-	c.slot(has("EQ((call:invoke:os.FileInfo.Mode(call:os.Lstat(", "& const:134217728),const:0)"), 1, "gate/not-symlink", "the store path is not a symlink", site, "")
+	{
+		// the mode of the Lstat result: directory bit set, symlink bit clear (predicate or bit-mask form), on every success exit
+		isDir, notSym := len(s.Exits) > 0, len(s.Exits) > 0
+		for _, ex := range s.Exits {
+			d, sy, _ := modeBits(ex.Checked, "call:invoke:os.FileInfo.Mode(call:os.Lstat(")
+			if d != 1 {
+				isDir = false
+			}
+			// a value known to be a directory by the mode-type bits cannot be a symlink only if the symlink bit is tested
+			if sy != -1 {
+				notSym = false
+			}
+		}
+		c.slot(isDir, 1, "gate/is-directory", "the store path is a directory", site, "")
+		c.slot(notSym, 1, "gate/not-symlink", "the store path is not a symlink", site, "")
+	}
 	c.slot(has("EQ(call:os.ReadDir("+pathD+")#err,nil)"), 1, "gate/readdir", "os.ReadDir(store path) err == nil", site, "")
 	nonEmpty := false
 	for _, ex := range s.Exits {
@@ -198,6 +212,16 @@ func runC13(c *Ctx) {
 	formA := hasIt("F(call:invoke:os.DirEntry.IsDir("+ent) && hasIt("EQ((call:invoke:os.DirEntry.Type("+ent, "& const:134217728),const:0)")
 	formB := hasIt("T(call:(io/fs.FileMode).IsRegular(call:invoke:os.DirEntry.Type(" + ent)
 	formC := hasIt("T(call:(io/fs.FileMode).IsRegular(call:invoke:os.FileInfo.Mode(call:os.Lstat(")
+	// bit-mask form on the entry's own type: directory and symlink bits both clear
+	if d, sy, _ := modeBits(labels, "call:invoke:os.DirEntry.Type("+ent); d == -1 && sy == -1 {
+		formA = true
+	}
+	if d, sy, _ := modeBits(labels, "call:invoke:io/fs.DirEntry.Type("+ent); d == -1 && sy == -1 {
+		formA = true
+	}
+	if hasIt("F(call:invoke:io/fs.DirEntry.IsDir("+ent) && hasIt("EQ((call:invoke:io/fs.DirEntry.Type("+ent, "& const:134217728),const:0)") {
+		formA = true
+	}
 	c.slot(formA || formB || formC, 1, "entry/regular-file", "per entry: not a directory and not a symlink, judged on the entry itself (DirEntry type or Lstat; a symlink-following Stat does not count)", lsite,
 		"a sub-directory or a symlink to a certificate file is accepted; per-iteration facts: "+summarizeLabels(labels, 8))
 	// read
